@@ -42,7 +42,7 @@ func expected(m *model.Map, c wire.Cmd, binary bool) wire.Result {
 		for i, k := range c.Keys {
 			it := m.Get(k)
 			if it == nil {
-				quiet := c.NoopEnd || i != len(c.Keys)-1
+				quiet := (c.NoopEnd || i != len(c.Keys)-1) && !c.NonQuiet
 				if binary && !quiet {
 					res.Misses++
 				}
